@@ -459,6 +459,50 @@ def flat_ties(traces, res, drv):
             res.mismatches.append(("flatreq", {"kind": "scenario", "scenario": sc}, "harness twin %s" % mine, "model flatReq %s" % model))
 
 
+def timing_ties(traces, res, drv):
+    """C10 (d): the instants that `AJ.Flat.timingOf` reads off the layer-B history of a run (the functions in which
+    `flatten_same_times` is stated) are the instants at which the implementation began / ended each job and each run
+    (component `timing`); also counts the twin pairs both of whose histories meet the theorem's hypotheses
+    (`plainCheck`)"""
+    import dyn_mon
+    lines, keep = [], []
+    for sc, r, trace in traces:
+        if sc.get("cancel_top") is not None or sc.get("busy") or sc.get("rerun") or "hang" in r:
+            continue
+        try:
+            ids, order, A, B, diag = translate(sc, r, trace)
+        except Exception:          # noqa
+            continue
+        lines.append("timing %s ev=%s" % (cfg_tokens(sc, ids, order), ";".join(B)))
+        keep.append((sc, r, trace, ids))
+    if not lines:
+        return
+    plain_prev = None
+    for (sc, r, trace, ids), out in zip(keep, drv.ask(lines)):
+        res.count("timing")
+        if not out.startswith("ok "):
+            res.mismatches.append(("timing", {"kind": "scenario", "scenario": sc}, "-", out[:300]))
+            plain_prev = None
+            continue
+        f = dict(x.split("=", 1) for x in out[3:].split(" "))
+        tab = {k: {int(a): int(b) for a, b in (y.split(":") for y in f[k].split(",") if y)} for k in ("B", "E")}
+        v = dyn_mon.View(sc, r, trace)
+        bad = []
+        if f["acc"] == "1":
+            for name, j in ids.items():
+                if name in v.began and tab["B"].get(j) != v.began[name][1]:
+                    bad.append("begin of %s: implementation t=%d, model %s" % (name, v.began[name][1], tab["B"].get(j)))
+                if name in v.began and name in v.stop and tab["E"].get(j) != v.stop[name][1]:
+                    bad.append("end of %s: implementation t=%d, model %s" % (name, v.stop[name][1], tab["E"].get(j)))
+        if bad:
+            res.mismatches.append(("timing", {"kind": "scenario", "scenario": sc}, "; ".join(bad[:4]), out[:300]))
+        if f["plain"] == "1":
+            res.dist["plain_runs"] = res.dist.get("plain_runs", 0) + 1
+            if sc.get("twin_of_prev") and plain_prev:
+                res.dist["plain_twin_pairs"] = res.dist.get("plain_twin_pairs", 0) + 1
+        plain_prev = f["plain"] == "1" and not sc.get("twin_of_prev")
+
+
 def replay_all(pid, traces, res, drv):
     """traces: list of (scenario, result, trace). Adds the correspondence differences that matter for `pid`
     to res.mismatches; the others are counted in res.dist["irrelevant_differences"]."""
